@@ -424,7 +424,10 @@ def forward_contract_rules(chk, S, rule, prims, usage=None):
             if v in pos or v in kwonly:
                 seen_params.append(v)
                 if kw.arg != v and KEYWORD_RENAMES.get((prim, v)) != kw.arg:
-                    problems.append(f"parameter {v!r} is passed as the keyword {kw.arg!r}")
+                    if kw.arg in pos or kw.arg in kwonly:
+                        problems.append(f"parameter {v!r} is passed as the keyword {kw.arg!r}, the name of another parameter")
+                    else:
+                        unknowns.append(f"parameter {v!r} is passed as the keyword {kw.arg!r}: whether that is the library's name for its place is not tabled")
             elif CONSTANTS_OK.get((prim, kw.arg)) == v:
                 pass
             else:
